@@ -130,6 +130,8 @@ type Run struct {
 	SolveS  float64
 	TmpDir  string
 	ExtraNotes  []string
+	// stand-in programs that did not produce a result: name -> error text
+	StandinErrs [][2]string
 	Bounded     []BoundedResult
 	// C05 bounded order stand-in: failing schema descriptors, family size
 	OrderFailing []string
@@ -284,7 +286,7 @@ func verifyRun(opts *RunOpts) (*Run, error) {
 		}
 		br, err := runBoundedGroups(opts, bg, bound)
 		if err != nil {
-			run.ExtraNotes = append(run.ExtraNotes, "bounded stand-in did not run: "+err.Error())
+			run.StandinErrs = append(run.StandinErrs, [2]string{"groups", err.Error()})
 		}
 		run.Bounded = br
 	}
@@ -295,7 +297,7 @@ func verifyRun(opts *RunOpts) (*Run, error) {
 		}
 		f, total, err := runBoundedRelations(opts, k)
 		if err != nil {
-			run.ExtraNotes = append(run.ExtraNotes, "bounded relations stand-in did not run: "+err.Error())
+			run.StandinErrs = append(run.StandinErrs, [2]string{"relations", err.Error()})
 		} else {
 			run.RelFailing, run.RelTotal, run.RelBound, run.RelRan = f, total, k, true
 		}
@@ -303,7 +305,7 @@ func verifyRun(opts *RunOpts) (*Run, error) {
 	if opts.Prop == "C07" || opts.Prop == "C03" {
 		f, total, err := runBoundedNegotiation(opts)
 		if err != nil {
-			run.ExtraNotes = append(run.ExtraNotes, "bounded negotiation stand-in did not run: "+err.Error())
+			run.StandinErrs = append(run.StandinErrs, [2]string{"negotiation", err.Error()})
 		} else {
 			run.NegFailing, run.NegTotal, run.NegRan = f, total, true
 		}
@@ -311,7 +313,7 @@ func verifyRun(opts *RunOpts) (*Run, error) {
 	if opts.Prop == "C14" {
 		f, total, err := runBoundedTracers(opts)
 		if err != nil {
-			run.ExtraNotes = append(run.ExtraNotes, "bounded tracer stand-in did not run: "+err.Error())
+			run.StandinErrs = append(run.StandinErrs, [2]string{"tracer", err.Error()})
 		} else {
 			run.TFailing, run.TTotal, run.TRan = f, total, true
 		}
@@ -323,7 +325,7 @@ func verifyRun(opts *RunOpts) (*Run, error) {
 		}
 		f, total, err := runBoundedClock(opts, k)
 		if err != nil {
-			run.ExtraNotes = append(run.ExtraNotes, "bounded clock stand-in did not run: "+err.Error())
+			run.StandinErrs = append(run.StandinErrs, [2]string{"clock", err.Error()})
 		} else {
 			run.CFailing, run.CTotal, run.CRan = f, total, true
 		}
@@ -331,7 +333,7 @@ func verifyRun(opts *RunOpts) (*Run, error) {
 	if opts.Prop == "C06" {
 		f, total, err := runBoundedWaiting(opts)
 		if err != nil {
-			run.ExtraNotes = append(run.ExtraNotes, "bounded waiting stand-in did not run: "+err.Error())
+			run.StandinErrs = append(run.StandinErrs, [2]string{"waiting", err.Error()})
 		} else {
 			run.WFailing, run.WTotal, run.WRan = f, total, true
 		}
@@ -339,7 +341,7 @@ func verifyRun(opts *RunOpts) (*Run, error) {
 	if opts.Prop == "C08" {
 		f, total, err := runBoundedFaults(opts)
 		if err != nil {
-			run.ExtraNotes = append(run.ExtraNotes, "bounded fault stand-in did not run: "+err.Error())
+			run.StandinErrs = append(run.StandinErrs, [2]string{"fault", err.Error()})
 		} else {
 			run.FFailing, run.FTotal, run.FRan = f, total, true
 		}
@@ -347,22 +349,22 @@ func verifyRun(opts *RunOpts) (*Run, error) {
 	if opts.Prop == "C13" {
 		f, total, err := runBoundedDispose(opts)
 		if err != nil {
-			run.ExtraNotes = append(run.ExtraNotes, "bounded dispose stand-in did not run: "+err.Error())
+			run.StandinErrs = append(run.StandinErrs, [2]string{"dispose", err.Error()})
 		} else {
 			run.DFailing, run.DTotal, run.DRan = f, total, true
 		}
 	}
-	if opts.Prop == "C04" {
+	if opts.Prop == "C04" || opts.Prop == "C06" { // C06: WhenQueue release is observed by the same family
 		f, total, err := runBoundedQueue(opts)
 		if err != nil {
-			run.ExtraNotes = append(run.ExtraNotes, "bounded queue stand-in did not run: "+err.Error())
+			run.StandinErrs = append(run.StandinErrs, [2]string{"queue", err.Error()})
 		} else {
 			run.QFailing, run.QTotal, run.QRan = f, total, true
 		}
 	}
 	if opts.Prop == "C05" {
 		if f, total, err := runBoundedHandlerSeq(opts); err != nil {
-			run.ExtraNotes = append(run.ExtraNotes, "bounded handler-sequence stand-in did not run: "+err.Error())
+			run.StandinErrs = append(run.StandinErrs, [2]string{"handler-sequence", err.Error()})
 		} else {
 			run.SFailing, run.STotal, run.SRan = f, total, true
 		}
@@ -370,7 +372,7 @@ func verifyRun(opts *RunOpts) (*Run, error) {
 	if opts.Prop == "C05" {
 		f, total, err := runBoundedOrder(opts)
 		if err != nil {
-			run.ExtraNotes = append(run.ExtraNotes, "bounded order stand-in did not run: "+err.Error())
+			run.StandinErrs = append(run.StandinErrs, [2]string{"order", err.Error()})
 		} else {
 			run.OrderFailing, run.OrderTotal, run.OrderRan = f, total, true
 		}
@@ -382,7 +384,7 @@ func verifyRun(opts *RunOpts) (*Run, error) {
 		}
 		br, err := runBoundedDeterminism(opts, reps)
 		if err != nil {
-			run.ExtraNotes = append(run.ExtraNotes, "bounded stand-in did not run: "+err.Error())
+			run.StandinErrs = append(run.StandinErrs, [2]string{"determinism", err.Error()})
 		}
 		run.Bounded = append(run.Bounded, br...)
 	}
